@@ -260,7 +260,7 @@ func main() {
 		}
 		body.Int(len(obs))
 		for _, o := range obs {
-			body.Int(o.n)
+			body.Int(o.n + 1000)
 			body.Bool(o.ok)
 		}
 		nCases++
@@ -507,7 +507,7 @@ func main() {
 		}
 	}
 
-	whitelists := [][]string{{}, {"*"}, {"ls", "echo"}, {"ls", "*"}, {"/bin/ls"}, {"ls "}, {""}, {"\xc3\xa9"}, {"ls", "ls"}, {"bin\\ls"}, {"LS"}, {"echo", "whoami", "ls"}}
+	whitelists := [][]string{{}, {"*"}, {"ls", "echo"}, {"ls", "*"}, {"*x", "ls"}, {"**"}, {" *"}, {"/bin/ls"}, {"ls "}, {""}, {"\xc3\xa9"}, {"ls", "ls"}, {"bin\\ls"}, {"LS"}, {"echo", "whoami", "ls"}}
 	commands := []string{"ls", "echo", "LS", "ls ", " ls", "/bin/ls", "./ls", "bin\\ls", "*", "", "\xc3\xa9", "l\x00s", "ls\n", "ls;id", "whoami", "l", "lsx", "../ls", "ls/", "\\ls"}
 	argAlphabet := []string{"a", "-l", "x y", ".", "..", "/", "\\", ";", "&", "|", "$", "`", "(", ")", "{", "}", "[", "]", "<", ">", "!", "*", "?", "~",
 		"\x00", "\xc3\xa9", "\xff", "\n", "'", "\"", "#", "=", ",", "%", "^", ":", "@", "+", "-", "_", "\t", " "}
